@@ -48,7 +48,7 @@ type handler struct {
 	cfg       *caseCfg
 	nCbs      int
 	w         *tr.Writer
-	cur       *connInfo // connection of the innermost callback in progress
+	curBy     map[int64]*connInfo // per goroutine: connection of the innermost callback in progress
 	udpPeers  map[string]*peer
 	third     *net.UDPConn // a socket that is nobody's peer: the target of SendTo on connected client sockets
 	thirdExp  [][]byte
@@ -514,9 +514,21 @@ func (h *handler) pickAction(ci *connInfo, cb string) gnet.Action {
 
 // script performs a random list of API calls on the connection inside a callback.
 func (h *handler) script(ci *connInfo, cb string) {
-	prev := h.cur
-	h.cur = ci
-	defer func() { h.cur = prev }()
+	// (per goroutine: in the multi-loop runs callbacks of different loops are in progress at the same time)
+	g := goid()
+	h.mu.Lock()
+	prev := h.curBy[g]
+	h.curBy[g] = ci
+	h.mu.Unlock()
+	defer func() {
+		h.mu.Lock()
+		if prev == nil {
+			delete(h.curBy, g)
+		} else {
+			h.curBy[g] = prev
+		}
+		h.mu.Unlock()
+	}()
 	if h.cfg.scenario != "" {
 		h.scenarioScript(ci, cb)
 		return
@@ -715,7 +727,10 @@ const writeToLimits = true
 // hl builds the `h` input line of a handler call; calls on a connection other than the
 // one the callback is for are written `h on <cid> <call> ...`
 func (h *handler) hl(ci *connInfo, args ...string) tr.Line {
-	if h.cur != nil && h.cur != ci {
+	h.mu.Lock()
+	cur := h.curBy[goid()]
+	h.mu.Unlock()
+	if cur != nil && cur != ci {
 		return tr.L("h", append([]string{"on", tr.I(ci.mcid)}, args...)...)
 	}
 	return tr.L("h", args...)
@@ -724,13 +739,18 @@ func (h *handler) hl(ci *connInfo, args ...string) tr.Line {
 func (h *handler) doCall(ci *connInfo, call string, n int, data []byte, cb bool) {
 	c := ci.c
 	rec := h.rec
+	gc := goid()
 	rec.mu.Lock()
-	prevCall := rec.curCall
-	rec.curCall = call
+	prevCall := rec.curCallBy[gc]
+	rec.curCallBy[gc] = call
 	rec.mu.Unlock()
 	defer func() {
 		rec.mu.Lock()
-		rec.curCall = prevCall
+		if prevCall == "" {
+			delete(rec.curCallBy, gc)
+		} else {
+			rec.curCallBy[gc] = prevCall
+		}
 		rec.mu.Unlock()
 	}()
 	switch call {
